@@ -198,6 +198,18 @@ func (p *projector) tick(where string, ts *timestamppb.Timestamp) int {
 	return t
 }
 
+// marketOptTick: an optional instant of the market time domain (sell order expiration)
+func (p *projector) marketOptTick(where string, ts *timestamppb.Timestamp) OptTime {
+	if ts == nil {
+		return OptTime{}
+	}
+	t, ok := MarketTick(ts.AsTime())
+	if !ok {
+		p.notes.OffLattice = append(p.notes.OffLattice, fmt.Sprintf("%s=%s", where, ts.AsTime()))
+	}
+	return OptTime{Set: true, T: t}
+}
+
 func (p *projector) optTick(where string, ts *timestamppb.Timestamp) OptTime {
 	if ts == nil {
 		return OptTime{}
@@ -275,7 +287,7 @@ func (a *App) ProjectEco(ctx sdk.Context) (*State, *Notes) {
 	p := &projector{a: a, ctx: ctx, notes: n, bdenoms: map[string]bool{}}
 	s := &State{}
 	var c context.Context = ctx
-	now, ok := TimeTick(ctx.BlockTime())
+	now, ok := MarketTick(ctx.BlockTime())
 	if !ok {
 		n.OffLattice = append(n.OffLattice, "blocktime")
 	}
@@ -584,7 +596,7 @@ func (a *App) ProjectEco(ctx sdk.Context) (*State, *Notes) {
 				ask = sdk.ZeroInt()
 			}
 			s.Orders = append(s.Orders, map[string]any{"id": v.Id, "seller": Name(v.Seller), "bk": v.BatchKey, "qty": p.amt(w+".quantity", v.Quantity),
-				"mid": v.MarketId, "ask": p.small(w+".ask", ask), "dar": v.DisableAutoRetire, "exp": p.optTick(w+" expiration", v.Expiration), "maker": v.Maker})
+				"mid": v.MarketId, "ask": p.small(w+".ask", ask), "dar": v.DisableAutoRetire, "exp": p.marketOptTick(w+" expiration", v.Expiration), "maker": v.Maker})
 		}
 		it.Close()
 	}
